@@ -73,7 +73,8 @@ SUBTYPES_OF = {"Agent": ["Person", "Organization", "SoftwareAgent"], "Entity": [
 
 STR_COMMON = ["", "a", "hello world", 'q"uote', "back\\slash", "new\nline", "tab\there", "é中\U0001F600",
               "<b>&amp;</b>", "prov:foo", "ex:bar", "  lead", "trail  ", "'single'", 'a"""b', "1", "true", "]]>",
-              "{x}", "%s %d", " ", "end\\", 'end"', " sep", "<i>x</i>", "a&b", "line1\nline2\n", "\\n", "1.0", "-"]
+              "{x}", "%s %d", " ", "end\\", 'end"', " sep", "<i>x</i>", "a&b", "line1\nline2\n", "\\n", "1.0", "-",
+              'She wrote:\n"see you"', 'x\n"', '"""\n', '\n""', "\n\\", "\t"]
 STR_NON_XML = ["a\rb", "c\r\nd", "ctl\x01", "del\x7f", "nul\x00x", "￾"]
 
 DEFAULT_PROFILE = dict(
